@@ -180,6 +180,12 @@ def prove(pid: str, required: list[str], tier: str, extra_modules: list[str] | N
         report['build_ok'] = rc == 0
         prop_file = LEAN / 'FemtoVerif' / 'Props' / f'{pid}.lean'
         declared = [n for (n, priv) in theorem_names(prop_file) if not priv]
+        # generated tie theorems (translator, DESIGN 3.1) are obligations of the property as well
+        for m in mods[1:]:
+            if '.Gen.' in m:
+                gf = LEAN / pathlib.Path(*m.split('.')).with_suffix('.lean')
+                if gf.exists():
+                    declared += [n for (n, priv) in theorem_names(gf) if not priv]
         report['declared'] = declared
         short = {n.split('.')[-1]: n for n in declared}
         report['missing'] = [r for r in required if r not in short]
